@@ -7,12 +7,13 @@
 using namespace CDNS;
 
 Store W; uint64_t w_bytes; bool w_phase_value; int w_cur_slot; bool w_in_arr; int w_arr_slot;
+bool w_item_arrays;      // block-level mode: arrays hold only nested items (stub tokens); an array ends at the next scalar (= map key)
 static uint64_t w_arr_declared, w_arr_count;
 Store R; uint8_t r_order[TK_NSLOT]; unsigned r_nmem; bool r_indef; unsigned r_pos; bool r_value_pending;
 unsigned r_tokens, r_cut; bool r_in_arr; int r_arr_slot; unsigned r_arr_pos; bool r_arr_indef; bool r_done, r_misuse;
 static int r_cur_slot; static bool r_started;
 
-void tk_wreset() { tk_clear(W); w_bytes = 0; w_phase_value = false; w_cur_slot = 0; w_in_arr = false; w_arr_slot = 0; w_arr_declared = w_arr_count = 0; }
+void tk_wreset() { tk_clear(W); w_item_arrays = false; w_bytes = 0; w_phase_value = false; w_cur_slot = 0; w_in_arr = false; w_arr_slot = 0; w_arr_declared = w_arr_count = 0; }
 void tk_rreset() { r_pos = 0; r_value_pending = false; r_tokens = 0; r_cut = ~0u; r_in_arr = false; r_arr_slot = 0; r_arr_pos = 0; r_arr_indef = false; r_done = false; r_misuse = false; r_cur_slot = 0; r_started = false; r_indef = false; }
 
 // =========================================================================================== writer side
@@ -24,11 +25,15 @@ static void w_emit(const Tok& t) {
         else { W.top = t.kind; W.top_tok = t; }
         return;
     }
+    if (w_in_arr && w_item_arrays && t.kind != K_ITEM) {                // the array of items is over: its length must be what was declared
+        if (w_arr_count != w_arr_declared) W.bad = true;
+        w_in_arr = false;
+    }
     if (w_in_arr) {
         if (w_arr_count < TK_NARR) W.arr[w_arr_slot][w_arr_count] = t; else W.bad = true;
         w_arr_count++;
         if (W.top == K_ARR) W.count++;
-        if (w_arr_count == w_arr_declared) w_in_arr = false;
+        if (!w_item_arrays && w_arr_count == w_arr_declared) w_in_arr = false;
         return;
     }
     if (W.top != K_MAP) { W.bad = true; return; }                       // a second item after the single top-level item
@@ -42,12 +47,14 @@ static void w_emit(const Tok& t) {
         return;
     }
     W.val[w_cur_slot] = t; W.seen |= (1u << w_cur_slot); W.count++; w_phase_value = false;
-    if (t.kind == K_ARR && t.u > 0) { w_in_arr = true; w_arr_slot = w_cur_slot; w_arr_count = 0; w_arr_declared = t.u; }
+    if (t.kind == K_ARR && (t.u > 0 || w_item_arrays)) { w_in_arr = true; w_arr_slot = w_cur_slot; w_arr_count = 0; w_arr_declared = t.u; }
     if (t.kind == K_MAP) W.bad = true;                                   // nested maps come from (stubbed) nested write() calls only
 }
 // the item is complete and well formed: exactly one item, declared counts == members present, every key has its value
 static bool w_wellformed() {
-    if (!W.started || W.bad || w_phase_value || w_in_arr) return false;
+    if (w_in_arr && w_item_arrays) { if (w_arr_count != w_arr_declared) return false; }
+    else if (w_in_arr) return false;
+    if (!W.started || W.bad || w_phase_value) return false;
     if (W.top == K_MAP || W.top == K_ARR) return W.count == W.declared;
     return true;
 }
